@@ -156,23 +156,27 @@ def merge_strictness(ctx, rule='C06-R3'):
         return
     lp = loops[0]
     cond = lp.cond
-    # len(prelim[indexer]) > 0
-    ok = tag(cond) == 'cmp' and cond[1] == 'lt' and cond[2] == C(0) and tag(cond[3]) == 'call' \
-        and cond[3][1] == ('g', 'builtins.len')
+    # "while some adjacent pair is too close": len(prelim[indexer]) > 0 in any spelling (also `while True` + break)
+    from sa.rules.common import nonempty_arg
+    sel = nonempty_arg(cond) if cond is not None else None
     idx = None
-    if ok:
-        m = [x for x in T.walk(cond[3]) if tag(x) in ('mask', 'sub')]
+    if sel is not None:
+        m = [x for x in T.walk(sel) if tag(x) in ('mask', 'sub')]
         idx = m[0][2] if m else None
+    ok = sel is not None
     ctx.check(ok and idx is not None, rule, MERGE, lp.node, f.loc(lp.node),
               f'the merge loop runs while {T.show(cond, maxlen=120)}: expected "some adjacent pair is too close"',
               instance='merge: loop while some pair is too close')
-    # the indexer (at entry and recomputed in the body) is (diff(height_base) < min_sep(height_base)).fillna(False)
+    # the indexer (at entry and recomputed in the body, or computed afresh in every iteration) is
+    # (diff(height_base) < min_sep(height_base)).fillna(False)
     cands = []
     if tag(idx) == 'lphi':
         init = lp.init.get(idx[2])
-        res = s.env.get(idx[2])
-        body = res[4] if tag(res) == 'loopres' else None
+        body = lp.carried.get(idx[2], (None, None))[1]
         cands = [('at loop entry', init), ('recomputed after a merge', body)]
+    elif idx is not None:
+        cands = [('computed in every iteration', idx)]
+    ctx.floor(rule, 'too-close tests of the merge loop', len(cands), 1)
     for label, t in cands:
         good = False
         why = T.show(t, maxlen=160)
@@ -195,10 +199,9 @@ def merge_strictness(ctx, rule='C06-R3'):
     # in-place calls and re-binding chains are the same thing)
     from sa.rules.tablemodel import flatten
     tbl = None
-    for nm, val in s.env.items():
-        if tag(val) == 'loopres' and val[1] == lp.id and any(
-                o.kind == 'call' and o.name == 'drop' for o in flatten(val[4], stop_at_lphi=True)):
-            tbl = val
+    for nm, (init_v, body_v) in lp.carried.items():
+        if any(o.kind == 'call' and o.name == 'drop' for o in flatten(body_v, stop_at_lphi=True)):
+            tbl = ('loopres', lp.id, nm, init_v, body_v)
     ok_s = ok_r = ok_loop = False
     if tbl is not None:
         before = flatten(tbl[3])                      # newest first
@@ -235,7 +238,7 @@ def merge_strictness(ctx, rule='C06-R3'):
                   '(components exactly min_sep apart stay separate, as groups do)',
                   instance='layers: components merged iff delta < min_sep (same strictness as groups)')
     # the deltas are differences of the sorted component bases
-    fl = [l for l in fx.ex.loops.values() if l.func.qname == NCOMP and l.kind == 'enumerate']
+    fl = [l for l in fx.deep_loops(NCOMP).values() if l.kind == 'enumerate']
     ok_it = any(tag(l.iter) == 'call' and l.iter[1] == ('g', 'numpy.diff') and l.iter[2] and
                 tag(l.iter[2][0]) == 'call' and l.iter[2][0][1] == ('g', 'numpy.sort') for l in fl)
     ctx.check(ok_it, rule, NCOMP, nf.node.name, nf.loc(), 'component deltas are not differences of the sorted bases',
@@ -270,7 +273,7 @@ def min_sep_lookup(ctx, rule='C06-R4'):
         ctx.check(raises[0].seq < rets[0].seq, rule, MINSEP, f.node.name, f.loc(), 'length check after the lookup',
                   instance='min_sep: check precedes lookup')
     # callers pass the base of the (upper) set
-    for caller, e in fx.sites.get(MINSEP, []):
+    for caller, e in (fx.deep_sites(MINSEP) if MINSEP in __import__('sa.anchors', fromlist=['ANCHORS']).ANCHORS else fx.sites.get(MINSEP, [])):
         a = e.call[2][1] if len(e.call[2]) > 1 else None
         ok = a is not None and T.contains(a, lambda x: (tag(x) == 'cell' and x[3] == 'height_base'))
         ctx.check(ok, rule, caller, e.node, e.loc(),
